@@ -24,6 +24,7 @@ struct SrcBuilder<'a> {
     start_type_name: String,
     terminal_enum_name: String,
     eof_variant_name: String,
+    token_source_type_param_name: String,
     quasiterminal_enum_name: String,
     quasiterminal_kind_enum_name: String,
     nonterminal_kind_enum_name: String,
@@ -44,6 +45,7 @@ impl SrcBuilder<'_> {
         let start_type_name = file.start.to_owned();
         let terminal_enum_name = file.terminal_enum.name.to_owned();
         let eof_variant_name = create_unique_identifier("Eof", used_identifiers);
+        let token_source_type_param_name = create_unique_identifier("S", used_identifiers);
         let quasiterminal_enum_name = create_unique_identifier("Quasiterminal", used_identifiers);
         let quasiterminal_kind_enum_name =
             create_unique_identifier("QuasiterminalKind", used_identifiers);
@@ -77,6 +79,7 @@ impl SrcBuilder<'_> {
             start_type_name,
             terminal_enum_name,
             eof_variant_name,
+            token_source_type_param_name,
             quasiterminal_enum_name,
             quasiterminal_kind_enum_name,
             nonterminal_kind_enum_name,
@@ -102,6 +105,7 @@ impl SrcBuilder<'_> {
             start_type_name,
             terminal_enum_name,
             eof_variant_name,
+            token_source_type_param_name,
             quasiterminal_enum_name,
             quasiterminal_kind_enum_name,
             nonterminal_kind_enum_name,
@@ -171,8 +175,8 @@ impl SrcBuilder<'_> {
 
 /// If the parser encounters an unexpected token `t`, it will return `Err(Some(t))`.
 /// If the parser encounters an unexpected end of input, it will return `Err(None)`.
-pub fn parse<S>(src: S) -> Result<{start_type_name}, Option<{terminal_enum_name}>>
-where S: IntoIterator<Item = {terminal_enum_name}> {{
+pub fn parse<{token_source_type_param_name}>(src: {token_source_type_param_name}) -> Result<{start_type_name}, Option<{terminal_enum_name}>>
+where {token_source_type_param_name}: IntoIterator<Item = {terminal_enum_name}> {{
     let mut quasiterminals = src.into_iter()
         .map({quasiterminal_enum_name}::Terminal)
         .chain(std::iter::once({quasiterminal_enum_name}::{eof_variant_name}))
